@@ -47,6 +47,7 @@ type Replay struct {
 	// added by the driver
 	Sites     []string `json:"race_sites,omitempty"`
 	Minimised bool     `json:"minimised,omitempty"`
+	Isolated  bool     `json:"process_per_run,omitempty"`
 	Note      string   `json:"note,omitempty"`
 }
 
